@@ -35,6 +35,360 @@ fn mods_of(file: &Path) -> Vec<String> {
     v
 }
 
+
+// ---------------------------------------------------------------------------------------------
+// Name discovery for the accessor snippets.  The snippets refer to private items of the crate
+// through placeholders (@GEN_BRANCH@, @PG_JIT@, …).  Each placeholder is bound to the item that has
+// the expected *shape* in the current source (parameter types, return type, field type,
+// constructor position), so that a rename in /repo does not break the harness build; when no
+// unique item of that shape is found the name used on the pinned tree is kept.
+// ---------------------------------------------------------------------------------------------
+struct FnHdr {
+    name: String,
+    params: Vec<String>, // types only, whitespace removed; receivers skipped
+    ret: String,         // whitespace removed, "" for unit
+    is_pub: bool,
+    body: String,
+}
+
+fn strip_ws(s: &str) -> String {
+    s.chars().filter(|c| !c.is_whitespace()).collect()
+}
+
+fn matching(text: &[char], open: usize) -> Option<usize> {
+    let (o, c) = match text[open] {
+        '(' => ('(', ')'),
+        '{' => ('{', '}'),
+        '<' => ('<', '>'),
+        _ => return None,
+    };
+    let mut depth = 0i32;
+    let mut i = open;
+    while i < text.len() {
+        if text[i] == o {
+            depth += 1;
+        } else if text[i] == c {
+            if !(c == '>' && i > 0 && text[i - 1] == '-') {
+                depth -= 1;
+            }
+            if depth == 0 {
+                return Some(i);
+            }
+        }
+        i += 1;
+    }
+    None
+}
+
+fn split_top(s: &str) -> Vec<String> {
+    let mut out = Vec::new();
+    let mut depth = 0i32;
+    let mut cur = String::new();
+    let cs: Vec<char> = s.chars().collect();
+    for (i, &ch) in cs.iter().enumerate() {
+        match ch {
+            '(' | '[' | '{' | '<' => depth += 1,
+            ')' | ']' | '}' => depth -= 1,
+            '>' if !(i > 0 && cs[i - 1] == '-') => depth -= 1,
+            _ => {}
+        }
+        if ch == ',' && depth == 0 {
+            out.push(cur.clone());
+            cur.clear();
+        } else {
+            cur.push(ch);
+        }
+    }
+    if !cur.trim().is_empty() {
+        out.push(cur);
+    }
+    out
+}
+
+fn strip_line_comments(text: &str) -> String {
+    text.lines()
+        .map(|l| match l.find("//") {
+            Some(i) => &l[..i],
+            None => l,
+        })
+        .collect::<Vec<_>>()
+        .join("\n")
+}
+
+fn fn_headers(text: &str) -> Vec<FnHdr> {
+    let clean = strip_line_comments(text);
+    let cs: Vec<char> = clean.chars().collect();
+    let mut out = Vec::new();
+    let mut i = 0;
+    while i + 3 < cs.len() {
+        let is_fn = cs[i] == 'f' && cs[i + 1] == 'n' && cs[i + 2].is_whitespace() && (i == 0 || !(cs[i - 1].is_alphanumeric() || cs[i - 1] == '_'));
+        if !is_fn {
+            i += 1;
+            continue;
+        }
+        // visibility: look back on the same line
+        let mut ls = i;
+        while ls > 0 && cs[ls - 1] != '\n' {
+            ls -= 1;
+        }
+        let prefix: String = cs[ls..i].iter().collect();
+        let mut j = i + 2;
+        while j < cs.len() && cs[j].is_whitespace() {
+            j += 1;
+        }
+        let ns = j;
+        while j < cs.len() && (cs[j].is_alphanumeric() || cs[j] == '_') {
+            j += 1;
+        }
+        let name: String = cs[ns..j].iter().collect();
+        while j < cs.len() && cs[j].is_whitespace() {
+            j += 1;
+        }
+        if j < cs.len() && cs[j] == '<' {
+            match matching(&cs, j) {
+                Some(e) => j = e + 1,
+                None => {
+                    i += 2;
+                    continue;
+                }
+            }
+        }
+        if name.is_empty() || j >= cs.len() || cs[j] != '(' {
+            i += 2;
+            continue;
+        }
+        let pe = match matching(&cs, j) {
+            Some(e) => e,
+            None => {
+                i += 2;
+                continue;
+            }
+        };
+        let ptext: String = cs[j + 1..pe].iter().collect();
+        let mut params = Vec::new();
+        for p in split_top(&ptext) {
+            let p = p.trim().to_string();
+            let bare = strip_ws(&p);
+            if bare == "self" || bare == "&self" || bare == "&mutself" || bare == "mutself" || bare.is_empty() {
+                continue;
+            }
+            if let Some(k) = p.find(':') {
+                params.push(strip_ws(&p[k + 1..]));
+            }
+        }
+        let mut k = pe + 1;
+        let mut ret = String::new();
+        while k < cs.len() && cs[k] != '{' && cs[k] != ';' {
+            ret.push(cs[k]);
+            k += 1;
+        }
+        let mut ret = strip_ws(&ret);
+        if let Some(w) = ret.find("where") {
+            ret.truncate(w);
+        }
+        let ret = ret.trim_start_matches("->").to_string();
+        let body = if k < cs.len() && cs[k] == '{' {
+            match matching(&cs, k) {
+                Some(e) => cs[k + 1..e].iter().collect(),
+                None => String::new(),
+            }
+        } else {
+            String::new()
+        };
+        out.push(FnHdr { name, params, ret, is_pub: prefix.contains("pub"), body });
+        i = pe;
+    }
+    out
+}
+
+/// the unique function of the given shape, or the default
+fn pick(hdrs: &[FnHdr], params: &[&str], ret: &str, want_pub: Option<bool>, default: &str) -> String {
+    let mut names: Vec<&str> = hdrs
+        .iter()
+        .filter(|h| h.params.len() == params.len() && h.params.iter().zip(params).all(|(a, b)| a == b) && h.ret == ret)
+        .filter(|h| want_pub.map(|w| h.is_pub == w).unwrap_or(true))
+        .map(|h| h.name.as_str())
+        .collect();
+    names.dedup();
+    if names.iter().any(|n| *n == default) || names.len() != 1 {
+        default.to_string()
+    } else {
+        names[0].to_string()
+    }
+}
+
+/// fields of `struct Name { .. }` as (field, type without whitespace)
+fn struct_fields(text: &str, name: &str) -> Vec<(String, String)> {
+    let clean = strip_line_comments(text);
+    let key = format!("struct {}", name);
+    let mut res = Vec::new();
+    if let Some(p) = clean.find(&key) {
+        let cs: Vec<char> = clean[p..].chars().collect();
+        if let Some(o) = cs.iter().position(|&c| c == '{' || c == ';' || c == '(') {
+            if cs[o] == '{' {
+                if let Some(e) = matching(&cs, o) {
+                    let body: String = cs[o + 1..e].iter().collect();
+                    for f in split_top(&body) {
+                        let f = f.trim();
+                        let f = f.rsplit("]").next().unwrap_or(f).trim(); // drop attributes
+                        if let Some(k) = f.find(':') {
+                            let fname = f[..k].trim().trim_start_matches("pub(crate)").trim_start_matches("pub(super)").trim_start_matches("pub").trim();
+                            res.push((fname.to_string(), strip_ws(&f[k + 1..])));
+                        }
+                    }
+                }
+            }
+        }
+    }
+    res
+}
+
+fn field_by_type(fields: &[(String, String)], needle: &str, default: &str) -> String {
+    let m: Vec<&(String, String)> = fields.iter().filter(|(_, t)| t.contains(needle)).collect();
+    if m.len() == 1 {
+        m[0].0.clone()
+    } else {
+        default.to_string()
+    }
+}
+
+fn discover(src: &Path) -> Vec<(String, String)> {
+    let rd = |rel: &str| fs::read_to_string(src.join(rel)).unwrap_or_default();
+    let common = rd("injector_core/common.rs");
+    let amd = rd("injector_core/patch_amd64.rs");
+    let a64 = rd("injector_core/patch_arm64.rs");
+    let gen = rd("injector_core/arm64_codegenerator.rs");
+    let arm = rd("injector_core/patch_arm.rs");
+    let tr = rd("injector_core/patch_trait.rs");
+    let inj = rd("interface/injector.rs");
+    let fp = rd("interface/func_ptr.rs");
+    let mut m: Vec<(String, String)> = Vec::new();
+    let mut put = |k: &str, v: String| m.push((format!("@{}@", k), v));
+
+    // the newtype around NonNull<()>
+    let fpi = {
+        let clean = strip_line_comments(&common);
+        let mut name = "FuncPtrInternal".to_string();
+        for line in clean.lines() {
+            let l = strip_ws(line);
+            if l.contains("struct") && l.contains("(NonNull<()>)") {
+                if let Some(p) = l.find("struct") {
+                    let rest = &l[p + 6..];
+                    if let Some(e) = rest.find('(') {
+                        name = rest[..e].to_string();
+                    }
+                }
+            }
+        }
+        name
+    };
+    put("FPI", fpi.clone());
+    let ch = fn_headers(&common);
+    // the guard type: return type of the trait's methods
+    let th = fn_headers(&tr);
+    let guard_ty = th.iter().find(|h| h.params.len() == 2 && h.params[1] == "bool").map(|h| h.ret.clone()).filter(|r| !r.is_empty()).unwrap_or_else(|| "PatchGuard".to_string());
+    put("PATCHGUARD", guard_ty.clone());
+    put("M_EXEC", th.iter().find(|h| h.params.len() == 2 && h.params[0] == fpi && h.params[1] == fpi).map(|h| h.name.clone()).unwrap_or_else(|| "replace_function_with_other_function".into()));
+    put("M_BOOL", th.iter().find(|h| h.params.len() == 2 && h.params[0] == fpi && h.params[1] == "bool").map(|h| h.name.clone()).unwrap_or_else(|| "replace_function_return_boolean".into()));
+    let fpi_ref = format!("&{}", fpi);
+    put("ALLOC", pick(&ch, &[&fpi_ref, "usize"], "*mutu8", Some(true), "allocate_jit_memory"));
+    put("PATCH_FUNCTION", pick(&ch, &["*mutu8", "&[u8]"], "", Some(true), "patch_function"));
+    put("INJECT", pick(&ch, &["&[u8]", "*mutu8"], "", Some(true), "inject_asm_code"));
+    put("READ_BYTES", pick(&ch, &["*constu8", "usize"], "Vec<u8>", None, "read_bytes"));
+    // PatchGuard fields by the position of the constructor parameter they are initialised from
+    let defaults = ["func_ptr", "original_bytes", "patch_size", "jit_memory", "jit_size"];
+    let keys = ["PG_FUNC", "PG_SAVED", "PG_SIZE", "PG_JIT", "PG_JITSIZE"];
+    let mut roles: Vec<String> = defaults.iter().map(|s| s.to_string()).collect();
+    let fields = struct_fields(&common, &guard_ty);
+    if let Some(ctor) = ch.iter().find(|h| h.name == "new" && h.params == ["*mutu8", "Vec<u8>", "usize", "*mutu8", "usize"]) {
+        // parameter names in order
+        let clean = strip_line_comments(&common);
+        let mut pnames: Vec<String> = Vec::new();
+        if let Some(p) = clean.find("fn new(") {
+            // the constructor with five parameters: scan all `fn new(`
+            let mut at = p;
+            loop {
+                let cs: Vec<char> = clean[at..].chars().collect();
+                let o = cs.iter().position(|&c| c == '(').unwrap();
+                if let Some(e) = matching(&cs, o) {
+                    let ptext: String = cs[o + 1..e].iter().collect();
+                    let ps = split_top(&ptext);
+                    if ps.len() == 5 {
+                        pnames = ps.iter().map(|x| x.split(':').next().unwrap().trim().trim_start_matches("mut ").trim().to_string()).collect();
+                        break;
+                    }
+                }
+                match clean[at + 1..].find("fn new(") {
+                    Some(n) => at = at + 1 + n,
+                    None => break,
+                }
+            }
+        }
+        if pnames.len() == 5 {
+            let body = strip_ws(&ctor.body);
+            for (i, pn) in pnames.iter().enumerate() {
+                // `field: param` or shorthand `param` where a field of that name exists
+                let mut found: Option<String> = None;
+                for (f, _) in &fields {
+                    if body.contains(&format!("{}:{},", f, pn)) || body.contains(&format!("{}:{}}}", f, pn)) {
+                        found = Some(f.clone());
+                    }
+                }
+                if found.is_none() && fields.iter().any(|(f, _)| f == pn) {
+                    found = Some(pn.clone());
+                }
+                if let Some(f) = found {
+                    roles[i] = f;
+                }
+            }
+        }
+    }
+    for (k, v) in keys.iter().zip(roles) {
+        put(k, v);
+    }
+    // x86-64 back end
+    let ah = fn_headers(&amd);
+    put("GEN_BRANCH", pick(&ah, &["usize", "usize"], "Vec<u8>", None, "generate_branch_to_target_function"));
+    put("BOOL_STUB", pick(&ah, &["*mutu8", "bool"], "", None, "generate_will_return_boolean_jit_code"));
+    // AArch64 back end (its own BOOL_STUB binding is applied per file, see `apply`)
+    let h64 = fn_headers(&a64);
+    put("JIT_ABS", pick(&h64, &["*mutu8", "*const()"], "", None, "generate_will_execute_jit_code_abs"));
+    put("BOOL_STUB64", pick(&h64, &["*mutu8", "bool"], "", None, "generate_will_return_boolean_jit_code"));
+    put("APPLY", pick(&h64, &[&fpi, "*mutu8", "usize", "&[u8]"], &guard_ty, None, "apply_branch_patch"));
+    put("LONG_JUMP", pick(&fn_headers(&gen), &["usize", "usize"], "Vec<u32>", None, "maybe_emit_long_jump"));
+    // 32-bit ARM back end: the two `fn() -> bool` helpers, told apart by their bodies
+    let harm = fn_headers(&arm);
+    let bools: Vec<&FnHdr> = harm.iter().filter(|h| h.params.is_empty() && h.ret == "bool").collect();
+    let t = bools.iter().find(|h| strip_ws(&h.body) == "true").map(|h| h.name.clone()).unwrap_or_else(|| "return_true".into());
+    let f = bools.iter().find(|h| strip_ws(&h.body) == "false").map(|h| h.name.clone()).unwrap_or_else(|| "return_false".into());
+    put("RET_TRUE", t);
+    put("RET_FALSE", f);
+    // interface structs
+    let ifields = struct_fields(&inj, "InjectorPP");
+    put("F_GUARDS", field_by_type(&ifields, &guard_ty, "guards"));
+    put("F_VERIFIERS", field_by_type(&ifields, "CallCountVerifier", "verifiers"));
+    let ffields = struct_fields(&fp, "FuncPtr");
+    put("F_FPI", field_by_type(&ffields, &fpi, "func_ptr_internal"));
+    put("F_SIG", field_by_type(&ffields, "str", "signature"));
+    m
+}
+
+/// the type implementing the patch trait in this back-end file
+fn patcher_of(text: &str, default: &str) -> String {
+    let clean = strip_line_comments(text);
+    for line in clean.lines() {
+        let l = line.trim();
+        if l.starts_with("impl ") && l.contains(" for ") && l.ends_with('{') {
+            let after = l.split(" for ").nth(1).unwrap_or("");
+            let name: String = after.chars().take_while(|c| c.is_alphanumeric() || *c == '_').collect();
+            if !name.is_empty() && !l.contains("Drop") {
+                return name;
+            }
+        }
+    }
+    default.to_string()
+}
+
 fn main() {
     let repo = env::var("VERIF_REPO").unwrap_or_else(|_| "/repo".to_string());
     let src = Path::new(&repo).join("src");
@@ -45,6 +399,7 @@ fn main() {
     println!("cargo:rerun-if-changed={}", access.display());
     println!("cargo:rerun-if-env-changed=VERIF_REPO");
 
+    let bindings = discover(&src);
     let dst = out.join("src");
     let _ = fs::remove_dir_all(&dst);
     let mut files = Vec::new();
@@ -62,7 +417,22 @@ fn main() {
         if inc.exists() {
             println!("cargo:rerun-if-changed={}", inc.display());
             text.push_str("\n// ---- [shadow] accessor snippet appended by build.rs ----\n");
-            text.push_str(&fs::read_to_string(&inc).unwrap());
+            let mut snippet = fs::read_to_string(&inc).unwrap();
+            // per-file bindings first, then the crate-wide ones
+            let default_patcher = match name {
+                "patch_amd64.rs" => "PatchAmd64",
+                "patch_arm64.rs" => "PatchArm64",
+                _ => "PatchArm",
+            };
+            snippet = snippet.replace("@PATCHER@", &patcher_of(&text, default_patcher));
+            if name == "patch_arm64.rs" {
+                let b64 = bindings.iter().find(|(k, _)| k == "@BOOL_STUB64@").map(|(_, v)| v.clone()).unwrap();
+                snippet = snippet.replace("@BOOL_STUB@", &b64);
+            }
+            for (k, v) in &bindings {
+                snippet = snippet.replace(k.as_str(), v);
+            }
+            text.push_str(&snippet);
         }
         if macos && (name == "arm64_codegenerator.rs" || name == "patch_arm64.rs") {
             text = text.replace("target_os = \"macos\"", "all()");
